@@ -4,6 +4,7 @@ import (
 	"encoding/json"
 	"fmt"
 	"strconv"
+	"strings"
 	"sync"
 	"time"
 
@@ -564,6 +565,91 @@ func init() {
 				}})
 		}
 		concRun(c, "C05.concurrent", jobs, 150)
+	})
+	// C16 under concurrent use: 8 goroutines append different values to their OWN prefixed buffers; each result must be
+	// its prefix followed by the independently computed rendering. (A formatter that renders through a package-level
+	// scratch only when the buffer is non-empty is sequentially perfect and invisible to jobs that format into nil.)
+	wrap("C16", func(c *Ctx) {
+		var jobs []concJob
+		onto := func(prefix string, spare int, f func(buf []byte) ([]byte, error)) func() string {
+			return func() string {
+				buf := append(make([]byte, 0, len(prefix)+spare), prefix...)
+				out, err := f(buf)
+				if err != nil {
+					return "error: " + err.Error()
+				}
+				if string(buf) != prefix {
+					return "caller's bytes changed to " + strconv.Quote(string(buf))
+				}
+				return string(out)
+			}
+		}
+		for i := 0; i < 24; i++ {
+			y, m, d := ([]int{2024, 1, 9999, 0, 1999, 1600, 123, 4567}[i%8]+i*37)%10000, 1+i%12, 1+(i*5)%28
+			dt := date.New(y, time.Month(m), d)
+			ext, bas := digits(y, 4)+"-"+digits(m, 2)+"-"+digits(d, 2), digits(y, 4)+digits(m, 2)+digits(d, 2)
+			pre := fmt.Sprintf("date[%d]=", i)
+			fl, text := date.Format(0), ext
+			if i%3 == 1 {
+				fl, text = date.FormatBasic, bas
+			}
+			jobs = append(jobs, concJob{fmt.Sprintf("date.DefaultFormatter(%q, %s, %d)", pre, ext, int(fl)), pre + text,
+				onto(pre, []int{0, 3, 64}[i%3], func(b []byte) ([]byte, error) { return date.DefaultFormatter(b, dt, fl) })})
+		}
+		for i, n := range []uint64{1, 4, 9, 14, 40, 88, 90, 400, 444, 900, 1994, 2024, 3888, 3999, 4949, 12345, 49, 99, 499, 999, 1666, 2999, 3333, 7, 70001, 257000, 300004, 65999, 0, 1000, 100000, 58} {
+			n, fl := n, []int{0, 63, 64, 127}[i%4]
+			pre := fmt.Sprintf("MIX ivx %d: ", i)
+			jobs = append(jobs, concJob{fmt.Sprintf("roman.DefaultFormatter(%q, %d, %d)", pre, n, fl), pre + cxRomanFmt(n, fl),
+				onto(pre, []int{0, 5, 300}[i%3], func(b []byte) ([]byte, error) { return roman.DefaultFormatter(b, roman.Number(n), roman.Format(fl)) })})
+		}
+		for i, v := range []sem.Ver{sem.New(1, 2, 3), sem.New(0, 0, 0, "alpha.1"), sem.New(1<<64-1, 0, 9, "rc-1", "b.77"), sem.New(10, 20, 30, "", "x"), sem.New(7, 0, 1, "0.a.1"),
+			sem.New(123456789, 987654321, 5, "SNAPSHOT", "exp.sha.5114f85"), sem.New(0, 1, 0, "-"), sem.New(2, 2, 2, "", "001"), sem.New(1<<63, 1, 1<<32, "x-y.z"),
+			sem.New(3, 14, 15, "beta.11", "b"), sem.New(99, 99, 99), sem.New(4, 5, 6, "rc.1", "7"), sem.New(1, 0, 0, "a.b.c.d.e.f"), sem.New(5, 5, 5, "1"), sem.New(8, 0, 0, "", "z"), sem.New(6, 6, 6, "q-1", "-"),
+			sem.New(11, 0, 0, strings.Repeat("p.", 200)+"q"), sem.New(12, 1, 0, "", strings.Repeat("b", 700)), sem.New(13, 2, 0, "r"), sem.New(14, 3, 0, "0"), sem.New(15, 4, 0), sem.New(16, 5, 0, "x", "y"), sem.New(17, 6, 0, "-", "-"), sem.New(18, 7, 0, "a-b")} {
+			v, text := v, svText(v)
+			pre := fmt.Sprintf("v%d v1.2.3-", i)
+			fl := sem.Format(i % 2)
+			if fl != 0 {
+				text = "v" + text
+			}
+			jobs = append(jobs, concJob{fmt.Sprintf("sem.DefaultFormatter(%q, %s, %d)", pre, svText(v), int(fl)), pre + text,
+				onto(pre, []int{0, 2, 100}[i%3], func(b []byte) ([]byte, error) { return sem.DefaultFormatter(b, v, fl) })})
+		}
+		for i, v := range concSizes()[:40] {
+			s := size.Size(v)
+			dec, unit := szShortenWant(v)
+			pre := fmt.Sprintf("%d KiB &nbsp; ", i)
+			fl, text := size.Format(0), dec+unit
+			switch i % 3 {
+			case 1:
+				fl, text = size.FormatPretty, szGroup3(dec, " ")+" "+unit
+			case 2:
+				fl, text = size.FormatPretty|size.FormatHTML, szGroup3(dec, "&nbsp;")+"&nbsp;"+unit
+			}
+			jobs = append(jobs, concJob{fmt.Sprintf("size.DefaultFormatter(%q, %d, %d)", pre, v, int(fl)), pre + text,
+				onto(pre, []int{0, 4, 64}[i%3], func(b []byte) ([]byte, error) { return size.DefaultFormatter(b, s, fl) })})
+		}
+		for i := uint64(1); i <= 24; i++ {
+			hi, lo := i*0x9E3779B97F4A7C15, ^(i * 0xBF58476D1CE4E5B9)
+			id := uu.ID{Higher: hi, Lower: lo}
+			pre := fmt.Sprintf("id %d urn:uuid:", i)
+			fl, text := uu.Format(0), cxUUText(hi, lo)
+			if i%2 == 0 {
+				fl, text = uu.FormatURN, "urn:uuid:"+text
+			}
+			jobs = append(jobs, concJob{fmt.Sprintf("uu.DefaultFormatter(%q, %s, %d)", pre, cxUUText(hi, lo), int(fl)), pre + text,
+				onto(pre, []int{0, 9, 36, 45}[i%4], func(b []byte) ([]byte, error) { return uu.DefaultFormatter(b, id, fl) })})
+			if i <= 8 {
+				d := date.New(1000+int(i)*1111, time.Month(i), int(10+i))
+				n := roman.Number(1000 + 111*i)
+				jobs = append(jobs,
+					concJob{"ID.URN " + cxUUText(hi, lo), "urn:uuid:" + cxUUText(hi, lo), func() string { return id.URN() }},
+					concJob{"ID.MarshalText " + cxUUText(hi, lo), cxUUText(hi, lo), func() string { b, _ := id.MarshalText(); return string(b) }},
+					concJob{"Date.String " + d.String(), digits(1000+int(i)*1111, 4) + "-" + digits(int(i), 2) + "-" + digits(int(10+i), 2), func() string { return d.String() }},
+					concJob{fmt.Sprintf("Number(%d).MarshalText", uint64(n)), cxRomanFmt(uint64(n), int(roman.DefaultFormat)&127), func() string { b, _ := n.MarshalText(); return string(b) }})
+			}
+		}
+		concRun(c, "C16.concurrent", jobs, 120)
 	})
 	_ = time.January
 }
